@@ -159,15 +159,64 @@ ClassCons == {C0("id"), C0("expr"), CN("ps", 0), CN("ps", 1), C0("bid"), CN("blk
              \cup {CO("meth", k) : k \in MethKinds} \cup {CO("smeth", k) : k \in {"", "set"}} \cup {CO("pmeth2", k) : k \in {"", "get"}}
              \cup {CO("cmeth", k) : k \in {"", "async*"}}
 
+(* Contextual keywords as identifiers (ECMA-262 12.7.1/13.1: async, of, get, set are never reserved; let, static, yield are    *)
+(* reserved in strict mode code only; await only in modules and async functions) and the [no LineTerminator here] marks of   *)
+(* the productions in which they are keywords.  "kid" is an IdentifierReference with one of these names.  A node whose z is   *)
+(* "lt" is spelled with a line break after its first token ("lta": before the `=>` of an arrow function):                     *)
+(*   - where the grammar has no [no LineTerminator here] there (after an identifier, a unary operator, new, get, set,        *)
+(*     static, let/const/var) the program keeps its derivation, hence its tree;                                               *)
+(*   - after the `async` of a function expression / arrow function / object literal method (15.8, 15.9, 15.6) and before     *)
+(*     `=>` (15.3, 15.9) the production does not apply; the text is generated only where no other derivation exists          *)
+(*     (LtBad below), expectation: rejected;                                                                                  *)
+(*   - `async <line break> function f(){}` and `async <line break> x => y` as statements, `async <line break> me(){}` in a    *)
+(*     class body ARE derivable in another way (12.10.1: the restricted token gets a semicolon before it): they are the trees *)
+(*     "expression statement `async` ended by a line break, then ..." / "field async, then method me" built from kid / kfield.*)
+KwIds == {"async","let","of","get","set","static","await","yield"}
+KwMembers == {"async","get","set","static"}
+\* (a) as a whole expression statement / the right edge of one, ended by ';' or a line break, before every kind of statement start
+KwCons == {C0("id"), C0("expr"), CO("asg","="), CN("call", 0), CO("post","++"), CO("pre","--"), CO("un","typeof"),
+           CO("fdecl",""), CO("fdecl","async"), CO("arrow",""), CO("arrow","async"), C0("psid"), CN("ps", 0), C0("bid"), CN("blk", 0), CN("blk", 1),
+           CON("varl","let",1), C0("dc"), C0("dci"), CN("barr", 1), C0("if"), CO("label","L"), C0("empty"), C0("thrownl")}
+          \cup {CO("kid", w) : w \in KwIds}
+\* (b) inside expressions, with a line break after the identifier / operator / keyword; the restricted productions with the line break where they forbid it
+KwLt == {C0("id"), C0("expr"), CO("asg","="), CN("call", 1), C0("grp"), CO("un","await"), C0("new0"),
+         CO("fn","async"), CO("arrow",""), CO("arrow","async"), C0("psid"), CN("ps", 0), CN("ps", 1), C0("bid"), CN("blk", 0),
+         CN("obj", 1), CO("pmeth","async"), CO("pmeth","get"), CN("arr", 1)}
+        \cup {CO("kid", w) : w \in {"async","let","of","await","yield"}}
+\* (the same with more operators and bracket kinds, thorough tier)
+KwLt2 == KwLt \cup {C0("idx"), CN("tpl", 1), CO("post","++"), CO("un","typeof"), CO("fnn","async*"), CO("arrowb","async"), CO("pkv","pr"), C0("dot")} \cup {CO("kid", w) : w \in KwIds}
+\* class members named by a keyword, modifiers followed by a line break
+KwClass == {C0("id"), CN("ps", 0), CN("ps", 1), C0("bid"), CN("blk", 0), CN("field", 0), CN("field", 1), CN("sfieldl", 0), CN("sfieldl", 1), CO("meth",""), CO("meth","get"), CO("meth","set"), CO("meth","async"), CO("meth","*"),
+            CO("smeth",""), CO("smeth","async"), CO("pmeth2","get"), CN("cfield", 0), CON("cdecl","",1), CON("cdecl","",2), CO("kid","async"), CO("kid","get"), CO("kid","of")}
+           \cup {CON("kfield", w, n) : w \in KwMembers, n \in {0, 1}} \cup {CO("kmeth", w) : w \in KwMembers}
+\* the semicolon that ends a statement written on the next line, for every statement kind ending in ';' and inside if-else / do-while / labels / blocks
+NlSemi == {C0("id"), C0("expr"), CN("blk", 1), CN("blk", 2), C0("if"), C0("ife"), C0("dow"), C0("while"), CO("label","L"), CO("brk",""), CO("cont",""), C0("ret0"), C0("ret"),
+           C0("throw"), C0("dbg"), CON("var","let",1), CON("var","var",1), C0("dc"), C0("dci"), C0("bid"), CO("for","---"), CN("call", 0), CO("post","++"), C0("yield0"),
+           CON("cdecl","",1), CN("field", 0), CN("field", 1), C0("empty")}
+\* break / continue [no LineTerminator here] LabelIdentifier (14.8, 14.9): followed by a line break and an identifier they are two statements
+BrkNl == {C0("id"), C0("expr"), CN("sw", 1), CN("case", 2), CO("brk",""), CO("cont",""), C0("while"), CO("for","---"), CN("blk", 2), CO("label","L"), CO("brk","L"), CO("cont","L"), CN("call", 0)}
+(* Positions that take an AssignmentExpression, not an Expression (ChildReq = LAsg): "badcomma" is a comma expression put there *)
+(* WITHOUT parentheses.  It is generated only where the text has no other derivation (BadPlaced below); expectation: rejected.  *)
+(* The same positions with the parenthesised comma expression (Norm inserts the parentheses) and the contexts in which a comma   *)
+(* starts the next list element (arguments, elements, declarators, parameters) are the accepted programs of this set.            *)
+CommaPos == {C0("id"), C0("expr"), C0("comma"), C0("badcomma"), C0("grp"), C0("cond"), CO("arrow",""), C0("psid"), C0("yield"), CO("asg","="), C0("spread"),
+             CN("call", 2), CN("obj", 1), C0("pcomp"), CO("pkv","pr"), CN("tpl", 1), C0("idx"), CN("sw", 1), CN("case", 0),
+             C0("bid"), C0("dc"), C0("dci"), CON("var","var",1),
+             CON("cdecl","x",0), CON("cdecl","",1), CN("field", 1), CN("cfield", 0), CO("cmeth",""), CN("ps", 0), CN("blk", 0)}
+\* the heads of loops (the body is the empty statement)
+CommaFor == {C0("id"), C0("comma"), C0("badcomma"), C0("grp"), C0("cond"), CO("arrow",""), C0("psid"), C0("yield"), CO("asg","="), CN("call", 1), C0("dot"),
+             CO("forof","e"), CO("forof","var"), CO("forof","const"), CO("forin","e"), CO("forin","let"), CO("forawait","let"), CO("forawait","e"), CO("for","eee"), C0("while"), C0("empty"), C0("bid")}
+
 AllCons == ExprFull \cup ExprReduced \cup ExprReduced2 \cup ExprTiny \cup LeafCons \cup NegCons \cup StmtCons \cup StmtRed \cup AsiCons \cup BindCons \cup BindDeep \cup ForIn \cup ForInPat \cup ArrowPat \cup AsgPat \cup ForLhs \cup ClassBody \cup ClassAsi \cup ClassCons
-\* configurations for -simulate: everything at once
-SimCons == AllCons \ {c \in AllCons : c.k \in {"badasg", "dup"}}
+           \cup KwCons \cup KwLt \cup KwClass \cup CommaPos \cup CommaFor \cup NlSemi \cup BrkNl
+\* configurations for -simulate: everything at once (without the constructions that only exist to be rejected, and without the keyword-named identifiers)
+SimCons == AllCons \ {c \in AllCons : c.k \in {"badasg", "dup", "badcomma", "thrownl", "kid", "kfield", "kmeth", "sfieldl", "varl"}}
 
 (* ------------------------------- categories and signatures ------------------------------- *)
-EKinds == {"id","lit","nt","im","yield0","grp","un","pre","post","new0","newa","call","ocall","dot","odot","pdot","opdot","idx","oidx",
+EKinds == {"id","kid","badcomma","lit","nt","im","yield0","grp","un","pre","post","new0","newa","call","ocall","dot","odot","pdot","opdot","idx","oidx",
            "tag","tpl","bin","asg","badasg","comma","cond","yield","yields","arr","obj","fn","fnn","arrow","arrowb","cls","clsn"}
 SKinds == {"expr","var","empty","blk","if","ife","while","dow","for","forin","forof","forawait","sw","label","brk","cont","ret0","ret",
-           "throw","dbg","try","fdecl","cdecl","dup"}
+           "throw","dbg","try","fdecl","cdecl","dup","varl","thrownl"}
 Cat(t) == IF t.k \in EKinds THEN "E" ELSE IF t.k \in SKinds THEN "S"
           ELSE CASE t.k = "spread" -> "A"
                  [] t.k \in {"pkv","pcomp","psh","pspread","pmeth"} -> "PR"
@@ -176,7 +225,7 @@ Cat(t) == IF t.k \in EKinds THEN "E" ELSE IF t.k \in SKinds THEN "S"
                  [] t.k \in {"bpsh","bpshd","bpkv","bpcomp"} -> "BP"
                  [] t.k \in {"dc","dci"} -> "DC"
                  [] t.k \in {"case","def"} -> "CL"
-                 [] t.k \in {"meth","smeth","pmeth2","cmeth","ctor","field","sfield","pfield","cfield","sblock"} -> "CE"
+                 [] t.k \in {"meth","smeth","pmeth2","cmeth","ctor","field","sfield","pfield","cfield","sblock","kfield","kmeth","sfieldl"} -> "CE"
 Match(code, t) == CASE code = "A" -> Cat(t) \in {"E", "A"}
                     [] code = "K" -> t.k = "blk"
                     [] code = "V" -> t.k = "var" /\ t.z = "semi"
@@ -193,16 +242,16 @@ TryArgs(op) == CASE op = "c" -> <<"K","K">> [] op = "cp" -> <<"K","B","K">> [] o
 \* argument categories of a constructor
 SigArgs(con) ==
     LET k == con.k n == con.n IN
-    CASE k \in {"id","lit","nt","im","yield0","psid","psh","bid","bpsh","empty","brk","cont","ret0","dbg","dup"} -> <<>>
-      [] k \in {"grp","un","pre","post","new0","dot","odot","pdot","opdot","yield","yields","spread","pspread","pkv","bpshd","expr","ret","throw"} -> <<"E">>
-      [] k \in {"idx","oidx","bin","asg","badasg","comma","pcomp"} -> <<"E","E">>
+    CASE k \in {"id","kid","lit","nt","im","yield0","psid","psh","bid","bpsh","empty","brk","cont","ret0","dbg","dup"} -> <<>>
+      [] k \in {"grp","un","pre","post","new0","dot","odot","pdot","opdot","yield","yields","spread","pspread","pkv","bpshd","expr","ret","throw","thrownl"} -> <<"E">>
+      [] k \in {"idx","oidx","bin","asg","badasg","comma","badcomma","pcomp"} -> <<"E","E">>
       [] k = "cond" -> <<"E","E","E">>
       [] k \in {"newa","call","ocall"} -> <<"E">> \o Rep("A", n)
       [] k = "tag" -> <<"E">> \o Rep("E", n)
       [] k = "tpl" -> Rep("E", n)
       [] k = "arr" -> Rep("A", n)
       [] k = "obj" -> Rep("PR", n)
-      [] k \in {"fn","fnn","arrowb","pmeth","fdecl","meth","smeth","pmeth2","ctor"} -> <<"PS","K">>
+      [] k \in {"fn","fnn","arrowb","pmeth","fdecl","meth","smeth","pmeth2","ctor","kmeth"} -> <<"PS","K">>
       [] k = "cmeth" -> <<"E","PS","K">>
       [] k = "arrow" -> <<"PS","E">>
       [] k \in {"cls","clsn","cdecl"} -> (IF con.op = "x" THEN <<"E">> ELSE <<>>) \o Rep("CE", n)
@@ -214,7 +263,7 @@ SigArgs(con) ==
       [] k = "bpcomp" -> <<"E","B">>
       [] k = "dc" -> <<"B">>
       [] k = "dci" -> <<"B","E">>
-      [] k = "var" -> Rep("DC", n)
+      [] k \in {"var","varl"} -> Rep("DC", n)
       [] k = "blk" -> Rep("S", n)
       [] k \in {"if","while"} -> <<"E","S">>
       [] k = "ife" -> <<"E","S","S">>
@@ -226,16 +275,24 @@ SigArgs(con) ==
       [] k = "def" -> Rep("S", n)
       [] k = "label" -> <<"S">>
       [] k = "try" -> TryArgs(con.op)
-      [] k \in {"field","sfield","pfield"} -> Rep("E", n)
+      [] k \in {"field","sfield","pfield","kfield","sfieldl"} -> Rep("E", n)
       [] k = "cfield" -> <<"E">> \o Rep("E", n)
       [] k = "sblock" -> <<"K">>
 \* constructors that take a fresh name / a terminator spelling
 Fresh(k) == k \in {"id","psid","psh","bid","bpsh","bpshd","fnn","clsn","fdecl","cdecl"}
 FreshCon(con) == Fresh(con.k) \/ (con.k = "bobj" /\ con.op = "r")
-HasTerm(k) == k \in {"expr","var","dow","brk","cont","ret0","ret","throw","dbg","field","sfield","pfield","cfield"}
+HasTerm(k) == k \in {"expr","var","dow","brk","cont","ret0","ret","throw","dbg","field","sfield","pfield","cfield","varl","thrownl","kfield","sfieldl"}
+\* constructors that can be spelled with a line break after their first token (z = "lt"), offered when "lt" is among Terms:
+\* no [no LineTerminator here] there ...
+LtFree(con) == \/ con.k \in {"kid","un","pre","new0","smeth"}
+               \/ con.k \in {"meth","pmeth2","pmeth"} /\ con.op \in {"get","set"}
+\* ... or the line break is where the production has [no LineTerminator here] (after async; "lta": before =>)
+LtAsync(con) == con.k \in {"fn","fnn","arrow","arrowb","pmeth"} /\ con.op \in {"async","async*"}
+LtChoices(con) == IF "lt" \notin Terms THEN {""}
+                  ELSE {""} \cup (IF LtFree(con) \/ LtAsync(con) THEN {"lt"} ELSE {}) \cup (IF con.k \in {"arrow","arrowb"} THEN {"lta"} ELSE {})
 \* cost class
 Cost(con) == IF con.k = "yield0" THEN "e"
-             ELSE IF con.k \in {"lit","nt","im"} \/ (con.k \in {"arr","obj"} /\ con.n = 0) THEN "v"
+             ELSE IF con.k \in {"lit","nt","im","kid"} \/ (con.k \in {"arr","obj"} /\ con.n = 0) THEN "v"
              ELSE IF con.k \in {"fn","fnn","cls","clsn","obj","arr","arrowb"} THEN "p"
              ELSE IF SigArgs(con) = <<>> /\ con.k \notin {"brk","cont","ret0","dbg","dup"} THEN "l"
              ELSE IF con.k \in SKinds THEN "s" ELSE IF con.k \in EKinds THEN "e" ELSE "x"
@@ -256,7 +313,8 @@ IsOptChain(t) == t.k \in {"odot","oidx","ocall","opdot"} \/ (t.k \in {"dot","idx
 RECURSIVE Level(_)
 Level(t) ==
     LET k == t.k IN
-    CASE k \in {"id","lit","grp","arr","obj","fn","fnn","cls","clsn","tpl"} -> LPrim
+    CASE k \in {"id","kid","lit","grp","arr","obj","fn","fnn","cls","clsn","tpl"} -> LPrim
+      [] k = "badcomma" -> LPrim       \* the ill-formed operand is spelled bare wherever BadPlaced lets it stand
       [] k \in {"nt","im","newa"} -> LMem
       [] k \in {"dot","idx","pdot"} -> (IF Level(t.c[1]) = LCall THEN LCall ELSE LMem)
       [] k = "tag" -> (IF Level(t.c[1]) = LCall /\ ~IsOptChain(t.c[1]) THEN LCall ELSE LMem)
@@ -296,14 +354,15 @@ ChildReq(t, i) ==
       [] k = "asg" -> (IF i = 1 THEN LNew ELSE LAsg)
       [] k = "badasg" -> (IF i = 1 THEN LCoal ELSE LAsg)    \* the ill-formed left operand is spelled bare
       [] k = "comma" -> (IF i = 1 THEN LComma ELSE LAsg)
+      [] k = "badcomma" -> LAsg
       [] k = "cond" -> (IF i = 1 THEN LCoal ELSE LAsg)
       [] k = "arrow" -> (IF i = 2 THEN LAsg ELSE -1)
       [] k \in {"bdef","dci"} -> (IF i = 2 THEN LAsg ELSE -1)
       [] k = "bpcomp" -> (IF i = 1 THEN LAsg ELSE -1)
       [] k = "cmeth" -> (IF i = 1 THEN LAsg ELSE -1)
-      [] k \in {"field","sfield","pfield","cfield"} -> LAsg
+      [] k \in {"field","sfield","pfield","cfield","kfield","sfieldl"} -> LAsg
       [] k \in {"cls","clsn","cdecl"} -> (IF t.op = "x" /\ i = 1 THEN LNew ELSE -1)
-      [] k \in {"expr","ret","throw"} -> LComma
+      [] k \in {"expr","ret","throw","thrownl"} -> LComma
       [] k \in {"if","ife","while","sw","case"} -> (IF i = 1 THEN LComma ELSE -1)
       [] k = "dow" -> (IF i = 2 THEN LComma ELSE -1)
       [] k = "for" -> (IF i < Len(t.c) /\ Cat(t.c[i]) = "E" THEN LComma ELSE -1)
@@ -313,7 +372,7 @@ ChildReq(t, i) ==
 \* [In]: does child i inherit the exclusion of the `in` operator (for-initialisers)?
 ChildNoIn(t, i, noIn) ==
     LET k == t.k IN
-    CASE k \in {"bin","asg","badasg","comma","un","pre","post","yield","yields","new0","var","dc"} -> noIn
+    CASE k \in {"bin","asg","badasg","comma","badcomma","un","pre","post","yield","yields","new0","var","varl","dc"} -> noIn
       [] k = "cond" -> (IF i = 2 THEN FALSE ELSE noIn)
       [] k \in {"dot","odot","pdot","opdot","idx","oidx","call","ocall","newa","tag"} -> (IF i = 1 THEN noIn ELSE FALSE)
       [] k \in {"arrow","dci"} -> (IF i = 2 THEN noIn ELSE FALSE)
@@ -335,7 +394,12 @@ RECURSIVE Sep(_, _)
 Sep(ss, s) == IF ss = <<>> THEN <<>> ELSE IF Len(ss) = 1 THEN ss[1] ELSE ss[1] \o s \o Sep(Tail(ss), s)
 
 \* ExpressionStatement / ConciseBody / export default lookahead restrictions
-BadStart(toks) == toks[1] \in {"{", "function", "class"} \/ (Len(toks) > 1 /\ toks[1] = "async" /\ toks[2] = "function")
+\* (14.5: lookahead \notin { {, function, async [no LineTerminator here] function, class, let [ }; a line break between `let` and `[` changes nothing;
+\*  one between `async` and `function` lifts the restriction, parenthesising that spelling as well is merely redundant)
+BadStart(toks0) == LET toks == SelectSeq(toks0, LAMBDA x : x # "<lt>") IN
+                   \/ toks[1] \in {"{", "function", "class"}
+                   \/ (Len(toks) > 1 /\ toks[1] = "async" /\ toks[2] = "function")
+                   \/ (Len(toks) > 1 /\ toks[1] = "let" /\ toks[2] = "[")
 Norm(t, req, noIn, why) ==
     IF ~Fits(t, req, noIn) THEN Grp(why, Norm(t, LComma, FALSE, "auto"))
     ELSE LET t2 == [t EXCEPT !.c = [i \in DOMAIN t.c |-> Norm(t.c[i], ChildReq(t, i), ChildNoIn(t, i, noIn), Why(t, i, t.c[i]))]] IN
@@ -344,8 +408,12 @@ Norm(t, req, noIn, why) ==
          ELSE t2
 
 (* ------------------------------- spelling ------------------------------- *)
+\* "nlsemi": the semicolon on the next line (it still ends THIS statement: nothing offends, nothing is inserted - 12.10.1)
 Term(t) == CASE t.z = "semi" -> <<";">> [] t.z = "nl" -> <<"<nl>">> [] t.z = "omit" -> <<(IF t.k = "dow" THEN "<dw>" ELSE "<omit>")>>
+             [] t.z = "nlsemi" -> <<"<lts>", ";">>
 KindToks(op) == CASE op = "" -> <<>> [] op = "async*" -> <<"async","*">> [] OTHER -> <<op>>
+\* a line break after the first of some tokens (z = "lt")
+LtAfter1(toks, z) == IF z = "lt" /\ toks # <<>> THEN <<toks[1], "<lt>">> \o Tail(toks) ELSE toks
 FnToks(op) == CASE op = "" -> <<"function">> [] op = "async" -> <<"async","function">> [] op = "*" -> <<"function","*">>
                 [] op = "async*" -> <<"async","function","*">>
 Spell(t) ==
@@ -356,14 +424,15 @@ Spell(t) ==
         Nm == IF t.nm = "" THEN <<>> ELSE <<t.nm>>
     IN
     CASE k \in {"id","psid","psh","bid","bpsh"} -> <<t.nm>>
+      [] k = "kid" -> LtAfter1(<<t.op>>, t.z)
       [] k = "lit" -> <<t.op>>
       [] k = "nt" -> <<"new",".","target">>
       [] k = "im" -> <<"import",".","meta">>
       [] k = "yield0" -> <<"yield">>
       [] k = "grp" -> (IF t.op \in {"exp","mix"} THEN <<"(:" \o t.op>> \o S(1) \o <<"):" \o t.op>> ELSE <<"(">> \o S(1) \o <<")">>)
-      [] k \in {"un","pre"} -> <<t.op>> \o S(1)
+      [] k \in {"un","pre"} -> LtAfter1(<<t.op>>, t.z) \o S(1)
       [] k = "post" -> S(1) \o <<t.op>>
-      [] k = "new0" -> <<"new">> \o S(1)
+      [] k = "new0" -> LtAfter1(<<"new">>, t.z) \o S(1)
       [] k = "newa" -> <<"new">> \o S(1) \o <<"(">> \o Sep(From(2), <<",">>) \o <<")">>
       [] k = "call" -> S(1) \o <<"(">> \o Sep(From(2), <<",">>) \o <<")">>
       [] k = "ocall" -> S(1) \o <<"?.", "(">> \o Sep(From(2), <<",">>) \o <<")">>
@@ -376,7 +445,7 @@ Spell(t) ==
       [] k = "tag" -> (IF Len(t.c) = 1 THEN S(1) \o <<"`t`">> ELSE S(1) \o <<"`h${">> \o S(2) \o <<"}t`">>)
       [] k = "tpl" -> (IF Len(t.c) = 1 THEN <<"`h${">> \o S(1) \o <<"}t`">> ELSE <<"`h${">> \o S(1) \o <<"}m${">> \o S(2) \o <<"}t`">>)
       [] k \in {"bin","asg","badasg"} -> S(1) \o <<t.op>> \o S(2)
-      [] k = "comma" -> S(1) \o <<",">> \o S(2)
+      [] k \in {"comma","badcomma"} -> S(1) \o <<",">> \o S(2)
       [] k = "cond" -> S(1) \o <<"?">> \o S(2) \o <<":">> \o S(3)
       [] k = "yield" -> <<"yield">> \o S(1)
       [] k = "yields" -> <<"yield","*">> \o S(1)
@@ -388,10 +457,9 @@ Spell(t) ==
       [] k = "obj" -> <<"{">> \o Sep(All, <<",">>) \o <<"}">>
       [] k = "pkv" -> <<t.op, ":">> \o S(1)
       [] k = "pcomp" -> <<"[">> \o S(1) \o <<"]", ":">> \o S(2)
-      [] k = "pmeth" -> KindToks(t.op) \o <<"me">> \o S(1) \o S(2)
-      [] k \in {"fn","fnn","fdecl"} -> FnToks(t.op) \o Nm \o S(1) \o S(2)
-      [] k = "arrow" -> KindToks(t.op) \o S(1) \o <<"=>">> \o S(2)
-      [] k = "arrowb" -> KindToks(t.op) \o S(1) \o <<"=>">> \o S(2)
+      [] k = "pmeth" -> LtAfter1(KindToks(t.op), t.z) \o <<"me">> \o S(1) \o S(2)
+      [] k \in {"fn","fnn","fdecl"} -> LtAfter1(FnToks(t.op), t.z) \o Nm \o S(1) \o S(2)
+      [] k \in {"arrow","arrowb"} -> LtAfter1(KindToks(t.op), t.z) \o S(1) \o (IF t.z = "lta" THEN <<"<lt>">> ELSE <<>>) \o <<"=>">> \o S(2)
       [] k \in {"cls","clsn","cdecl"} -> <<"class">> \o Nm \o (IF t.op = "x" THEN <<"extends">> \o S(1) \o <<"{">> \o Flat(From(2)) ELSE <<"{">> \o Flat(All)) \o <<"}">>
       [] k = "ps" -> <<"(">> \o (IF t.op = "r" THEN Sep(SubSeq(All, 1, Len(All) - 1) \o <<(<<"...">> \o All[Len(All)])>>, <<",">>) ELSE Sep(All, <<",">>)) \o <<")">>
       [] k = "bdef" -> S(1) \o <<"=">> \o S(2)
@@ -405,6 +473,7 @@ Spell(t) ==
       [] k = "dc" -> S(1)
       [] k = "dci" -> S(1) \o <<"=">> \o S(2)
       [] k = "var" -> <<t.op>> \o Sep(All, <<",">>) \o Term(t)
+      [] k = "varl" -> <<t.op, "<lt>">> \o Sep(All, <<",">>) \o Term(t)
       [] k = "expr" -> S(1) \o Term(t)
       [] k = "empty" -> <<";">>
       [] k = "blk" -> <<"{">> \o Flat(All) \o <<"}">>
@@ -430,6 +499,7 @@ Spell(t) ==
       [] k = "ret0" -> <<"return">> \o Term(t)
       [] k = "ret" -> <<"return">> \o S(1) \o Term(t)
       [] k = "throw" -> <<"throw">> \o S(1) \o Term(t)
+      [] k = "thrownl" -> <<"throw", "<lt>">> \o S(1) \o Term(t)
       [] k = "dbg" -> <<"debugger">> \o Term(t)
       [] k = "try" -> (CASE t.op = "c" -> <<"try">> \o S(1) \o <<"catch">> \o S(2)
                          [] t.op = "cp" -> <<"try">> \o S(1) \o <<"catch","(">> \o S(2) \o <<")">> \o S(3)
@@ -443,7 +513,11 @@ Spell(t) ==
                          [] t.op = "class-let" -> <<"class","dd","{","}","let","dd",";">>
                          [] t.op = "let-class" -> <<"let","dd",";","class","dd","{","}">>
                          [] t.op = "class-class" -> <<"class","dd","{","}","class","dd","{","}">>)
-      [] k \in {"meth","smeth","pmeth2"} -> (IF k = "smeth" THEN <<"static">> ELSE <<>>) \o KindToks(t.op) \o <<(IF k = "pmeth2" THEN "#q" ELSE "me")>> \o S(1) \o S(2)
+      [] k \in {"meth","pmeth2"} -> LtAfter1(KindToks(t.op), t.z) \o <<(IF k = "pmeth2" THEN "#q" ELSE "me")>> \o S(1) \o S(2)
+      [] k = "smeth" -> LtAfter1(<<"static">>, t.z) \o KindToks(t.op) \o <<"me">> \o S(1) \o S(2)
+      [] k = "kmeth" -> <<t.op>> \o S(1) \o S(2)
+      [] k = "kfield" -> <<t.op>> \o (IF Len(t.c) = 1 THEN <<"=">> \o S(1) ELSE <<>>) \o Term(t)
+      [] k = "sfieldl" -> <<"static", "<lt>", "fi">> \o (IF Len(t.c) = 1 THEN <<"=">> \o S(1) ELSE <<>>) \o Term(t)
       [] k = "cmeth" -> KindToks(t.op) \o <<"[">> \o S(1) \o <<"]">> \o S(2) \o S(3)
       [] k = "ctor" -> <<"constructor">> \o S(1) \o S(2)
       [] k \in {"field","sfield","pfield"} -> (IF k = "sfield" THEN <<"static">> ELSE <<>>) \o <<(IF k = "pfield" THEN "#q" ELSE "fi")>>
@@ -504,6 +578,7 @@ Canon(t, w) ==
     IN
     IF Wrapped(t) THEN <<"(">> \o Inner(t, w) \o <<")">> ELSE
     CASE k \in {"id","psh"} -> <<t.nm>>
+      [] k = "kid" -> <<t.op>>
       [] k = "lit" -> <<t.op>>
       [] k = "tag" -> (IF Len(t.c) = 1 THEN C(1) \o <<"`t`">> ELSE C(1) \o <<"`h${">> \o C(2) \o <<"}t`">>)
       [] k = "tpl" -> (IF Len(t.c) = 1 THEN <<"`h${">> \o C(1) \o <<"}t`">> ELSE <<"`h${">> \o C(1) \o <<"}m${">> \o C(2) \o <<"}t`">>)
@@ -536,7 +611,7 @@ Canon(t, w) ==
       [] k = "bpcomp" -> <<" [">> \o Un(t.c[1], w) \o <<"]: Binding(">> \o C(2) \o <<")">>
       [] k = "dc" -> <<"Binding(">> \o C(1) \o <<")">>
       [] k = "dci" -> <<"Binding(">> \o C(1) \o <<" = ">> \o C(2) \o <<")">>
-      [] k = "var" -> <<"Decl(", t.op>> \o SpAll(All) \o <<")">>
+      [] k \in {"var","varl"} -> <<"Decl(", t.op>> \o SpAll(All) \o <<")">>
       [] k = "expr" -> <<"Stmt(">> \o Un(t.c[1], w) \o <<")">>
       [] k = "empty" -> <<"Stmt()">>
       [] k = "blk" -> <<"Stmt({">> \o SpAll(All) \o <<" })">>
@@ -570,12 +645,13 @@ Canon(t, w) ==
                          [] t.op = "cf" -> <<"Stmt(try ">> \o C(1) \o <<" catch ">> \o C(2) \o <<" finally ">> \o C(3) \o <<")">>
                          [] t.op = "cpf" -> <<"Stmt(try ">> \o C(1) \o <<" catch Binding(">> \o C(2) \o <<") ">> \o C(3) \o <<" finally ">> \o C(4) \o <<")">>)
       [] k = "dup" -> <<"rejected">>
-      [] k = "badasg" -> <<"rejected">>
+      [] k \in {"badasg","badcomma","thrownl"} -> <<"rejected">>
       [] k \in {"meth","smeth","pmeth2"} -> <<"Method(">> \o (IF k = "smeth" THEN <<"static ">> ELSE <<>>) \o MethPre(t.op) \o <<(IF k = "pmeth2" THEN "#q " ELSE "me ")>>
                                             \o C(1) \o <<" ">> \o C(2) \o <<")">>
       [] k = "cmeth" -> <<"Method(">> \o MethPre(t.op) \o <<"[">> \o Un(t.c[1], w) \o <<"] ">> \o C(2) \o <<" ">> \o C(3) \o <<")">>
       [] k = "ctor" -> <<"Method(constructor ">> \o C(1) \o <<" ">> \o C(2) \o <<")">>
-      [] k \in {"field","sfield","pfield"} -> <<"Field(">> \o (IF k = "sfield" THEN <<"static ">> ELSE <<>>) \o <<(IF k = "pfield" THEN "#q" ELSE "fi")>>
+      [] k = "kmeth" -> <<"Method(", t.op, " ">> \o C(1) \o <<" ">> \o C(2) \o <<")">>
+      [] k \in {"field","sfield","pfield","kfield","sfieldl"} -> <<"Field(">> \o (IF k \in {"sfield","sfieldl"} THEN <<"static ">> ELSE <<>>) \o <<(IF k = "pfield" THEN "#q" ELSE IF k = "kfield" THEN t.op ELSE "fi")>>
                                               \o (IF Len(t.c) = 1 THEN <<" = ">> \o C(1) ELSE <<>>) \o <<")">>
       [] k = "cfield" -> <<"Field([">> \o Un(t.c[1], w) \o <<"]">> \o (IF Len(t.c) = 2 THEN <<" = ">> \o C(2) ELSE <<>>) \o <<")">>
       [] k = "sblock" -> <<"Static(">> \o C(1) \o <<")">>
@@ -590,13 +666,16 @@ Loops == {"while","dow","for","forin","forof","forawait"}
 RECURSIVE IsLoopish(_)
 IsLoopish(t) == t.k \in Loops \/ (t.k = "label" /\ IsLoopish(t.c[1]))
 RECURSIVE IsIdLike(_)
-IsIdLike(t) == t.k = "id" \/ (t.k = "grp" /\ IsIdLike(t.c[1]))
-FnAllowed(op) == {"ret","nt","priv","sloppy"} \cup (IF op \in {"*","async*"} THEN {"gen"} ELSE {}) \cup (IF op \in {"async","async*"} THEN {"async"} ELSE {})
+IsIdLike(t) == t.k \in {"id","kid"} \/ (t.k = "grp" /\ IsIdLike(t.c[1]))
+\* "noawait" / "nogen": an identifier named await / yield, which the [Await] / [Yield] parameter of the enclosing function must allow
+FnAllowed(op) == {"ret","nt","priv","sloppy"} \cup (IF op \in {"*","async*"} THEN {"gen"} ELSE {"nogen"}) \cup (IF op \in {"async","async*"} THEN {"async"} ELSE {"noawait"})
 Needs(t) ==
     LET k == t.k
         Kids == UNION {Needs(t.c[i]) : i \in DOMAIN t.c}
     IN
     CASE k = "un" /\ t.op = "await" -> Kids \cup {"async"}
+      \* 13.1.1: let, static, yield are reserved words of strict mode code (class bodies); yield needs [~Yield], await [~Await] and the Script goal
+      [] k = "kid" -> (IF t.op \in {"let","static","yield"} THEN {"sloppy"} ELSE {}) \cup (IF t.op = "yield" THEN {"nogen"} ELSE {}) \cup (IF t.op = "await" THEN {"noawait"} ELSE {})
       [] k = "un" /\ t.op = "delete" -> Kids \cup (IF IsIdLike(t.c[1]) THEN {"sloppy"} ELSE {})
       [] k = "forawait" -> (Kids \ {"brk","loop"}) \cup {"async"}
       [] k \in {"yield0","yield","yields"} -> Kids \cup {"gen"}
@@ -608,19 +687,19 @@ Needs(t) ==
       [] k \in Loops -> Kids \ {"brk","loop"}
       [] k = "sw" -> Kids \ {"brk"}
       [] k = "label" -> Kids \ ({"lbl:" \o t.op} \cup (IF IsLoopish(t.c[1]) THEN {"clbl:" \o t.op} ELSE {}))
-      [] k \in {"fn","fnn","fdecl","pmeth","meth","smeth","pmeth2","ctor","sblock"} -> Kids \cap {"priv","sloppy"}
+      [] k \in {"fn","fnn","fdecl","pmeth","meth","smeth","pmeth2","ctor","sblock","kmeth"} -> Kids \cap {"priv","sloppy"}
       \* a computed key is evaluated in the context of the class / object literal
       [] k = "cmeth" -> Needs(t.c[1]) \cup (UNION {Needs(t.c[i]) : i \in 2..Len(t.c)} \cap {"priv","sloppy"})
       [] k = "arrowb" -> Kids \ ({"ret"} \cup (IF t.op = "async" THEN {"async"} ELSE {}))
       [] k = "arrow" -> Kids \ (IF t.op = "async" THEN {"async"} ELSE {})
       [] k \in {"cls","clsn","cdecl"} -> (IF \E i \in DOMAIN t.c : t.c[i].k \in {"pfield","pmeth2"} THEN Kids \ {"priv"} ELSE Kids)
-      [] k \in {"field","sfield","pfield"} -> Kids \ {"nt"}
+      [] k \in {"field","sfield","pfield","kfield","sfieldl"} -> Kids \ {"nt"}
       [] k = "cfield" -> Needs(t.c[1]) \cup (UNION {Needs(t.c[i]) : i \in 2..Len(t.c)} \ {"nt"})
       [] OTHER -> Kids
 
 (* ------------------------------- what the grammar's side conditions and early errors exclude ------------------------------- *)
 RECURSIVE IsSimpleTarget(_)
-IsSimpleTarget(t) == t.k = "id" \/ (t.k \in {"dot","idx","pdot"} /\ ~IsOptChain(t)) \/ (t.k = "grp" /\ IsSimpleTarget(t.c[1]))
+IsSimpleTarget(t) == t.k \in {"id","kid"} \/ (t.k \in {"dot","idx","pdot"} /\ ~IsOptChain(t)) \/ (t.k = "grp" /\ IsSimpleTarget(t.c[1]))
 RECURSIVE IsAsgPattern(_)
 AsgElem(e) == IsSimpleTarget(e) \/ IsAsgPattern(e) \/ (e.k = "asg" /\ e.op = "=" /\ (IsSimpleTarget(e.c[1]) \/ IsAsgPattern(e.c[1])))
 IsAsgPattern(t) ==
@@ -634,15 +713,37 @@ IsAsgPattern(t) ==
                                   [] OTHER -> FALSE
 RECURSIVE OpenIf(_)
 OpenIf(s) == s.k = "if" \/ (s.k = "ife" /\ OpenIf(s.c[3])) \/ (s.k \in {"while","for","forin","forof","forawait","label"} /\ OpenIf(s.c[Len(s.c)]))
-IsDeclaration(s) == s.k \in {"fdecl","cdecl","dup"} \/ (s.k = "var" /\ s.op \in {"let","const"})
+IsDeclaration(s) == s.k \in {"fdecl","cdecl","dup"} \/ (s.k \in {"var","varl"} /\ s.op \in {"let","const"})
 RECURSIVE IsPatternB(_)
 IsPatternB(b) == b.k \in {"barr","bobj"} \/ (b.k = "bdef" /\ IsPatternB(b.c[1]))
 ParamNeedsOK(ps) == Needs(ps) \subseteq {"priv","sloppy","nt"}
 BodyOK(node, op) == ParamNeedsOK(node.c[Len(node.c) - 1]) /\ Needs(node.c[Len(node.c)]) \subseteq FnAllowed(op)
-Ok(t) ==
+\* a line break where the production has [no LineTerminator here]: the production does not apply
+LtBad(t) == t.z \in {"lt","lta"} /\ t.k \in {"fn","fnn","arrow","arrowb","pmeth"} /\ (t.z = "lta" \/ t.op \in {"async","async*"})
+\* ... and nothing else derives the text, whatever surrounds it:
+\*   x <lb> => y, (a) <lb> => b, async x <lb> => y   12.10.1 puts a semicolon before `=>`, which no statement can start with
+\*   async <lb> (a) => b    is the call async(a) followed by `=>` (15.9.1: the cover must be an AsyncArrowHead, which has async [no LineTerminator here])
+\*   { async <lb> me(){} }  an object literal has no place for the inserted semicolon
+LtBadAnywhere(t) == t.z = "lta" \/ (t.k \in {"arrow","arrowb"} /\ t.c[1].k = "ps") \/ t.k = "pmeth"
+\* ... or because the operand stands between brackets: the semicolon 12.10.1 inserts before `function` / the parameter name cannot stand there
+\* (as a whole statement, or as the right edge of one, the text would be two statements: those are the trees built from "kid")
+Bracketed(p, i) == \/ p.k \in {"grp","arr","tpl","pkv","pcomp"}
+                   \/ p.k \in {"call","ocall","newa","idx","oidx","tag"} /\ i > 1
+LtOk(t) == \A i \in DOMAIN t.c : (LtBad(t.c[i]) /\ ~LtBadAnywhere(t.c[i])) => Bracketed(t, i)
+\* the first token of an operand (before Norm puts parentheses around it)
+FirstTok(t) == Spell(t)[1]
+OkNode(t) ==
     LET k == t.k IN
     CASE k \in {"pre","post"} -> IsSimpleTarget(t.c[1])
       [] k = "asg" -> IsSimpleTarget(t.c[1]) \/ (t.op = "=" /\ IsAsgPattern(t.c[1]))
+      \* 14.3.1: `let <line break> a` at the start of a statement of a StatementList is a LexicalDeclaration (nothing offends, so nothing is inserted):
+      \* the statement `let` is ended by ';' or before '}' only.  (Everywhere else in an expression `let` is followed by a token no declaration can continue with.)
+      [] k = "expr" -> ~(t.c[1].k = "kid" /\ t.c[1].op = "let" /\ t.z = "nl")
+      [] k = "kmeth" -> BodyOK(t, "") /\ t.c[1].k = "ps"
+      \* 15.7: `get <lb> a(){}`, `set <lb> a(b){}`, `static <lb> a` are an accessor / a static element (no restriction): a field named get / set / static
+      \* is ended by ';' or before '}' only; `async <lb> a(){}` is the field async followed by the method a (async [no LineTerminator here] ClassElementName)
+      [] k = "kfield" -> (t.op \in {"get","set","static"} => t.z # "nl") /\ Needs(t) \subseteq {"priv"}
+      [] k = "sfieldl" -> Needs(t) \subseteq {"priv"}
       [] k = "badasg" -> t.c[1].k = "bin"
       [] k \in {"pcomp","bpcomp"} -> t.c[1].k # "tag"
       [] k = "bdef" -> t.c[1].k # "bdef"
@@ -655,7 +756,7 @@ Ok(t) ==
       [] k = "sblock" -> Needs(t.c[1]) \subseteq {"priv"}
       [] k = "arrowb" -> ParamNeedsOK(t.c[1]) /\ Needs(t.c[2]) \cap {"gen","brk","loop"} = {} /\ (t.op = "" => "async" \notin Needs(t.c[2]))
                          /\ \A n \in Needs(t.c[2]) : n \in {"ret","nt","priv","sloppy","async"}
-      [] k = "arrow" -> ParamNeedsOK(t.c[1]) /\ "gen" \notin Needs(t.c[2]) /\ (t.op = "" => "async" \notin Needs(t.c[2]))
+      [] k = "arrow" -> ParamNeedsOK(t.c[1]) /\ "gen" \notin Needs(t.c[2]) /\ (t.op = "" => "async" \notin Needs(t.c[2])) /\ (t.op = "async" => "noawait" \notin Needs(t.c[2]))
       [] k \in {"cls","clsn","cdecl"} ->
              /\ Cardinality({i \in DOMAIN t.c : t.c[i].k = "ctor"}) <= 1
              /\ Cardinality({i \in DOMAIN t.c : t.c[i].k \in {"pfield","pmeth2"}}) <= 1
@@ -663,21 +764,25 @@ Ok(t) ==
       [] k \in {"field","sfield","pfield"} -> Needs(t) \subseteq {"priv"}
       [] k = "cfield" -> t.c[1].k # "tag" /\ UNION {Needs(t.c[i]) : i \in 2..Len(t.c)} \subseteq {"priv", "nt"}
       [] k = "dci" -> TRUE
-      [] k = "var" -> \A i \in DOMAIN t.c : (t.c[i].k = "dc" => ~IsPatternB(t.c[i].c[1]) /\ t.op # "const")
+      [] k \in {"var","varl"} -> \A i \in DOMAIN t.c : (t.c[i].k = "dc" => ~IsPatternB(t.c[i].c[1]) /\ t.op # "const")
       [] k \in {"if","while","label"} -> ~IsDeclaration(t.c[Len(t.c)]) /\ (k = "label" => t.op \notin Labels(t.c[1]))
       [] k = "ife" -> ~IsDeclaration(t.c[2]) /\ ~IsDeclaration(t.c[3]) /\ ~OpenIf(t.c[2])
       [] k = "dow" -> ~IsDeclaration(t.c[1])
-      [] k = "for" -> ~IsDeclaration(t.c[Len(t.c)])
+      [] k = "for" -> ~IsDeclaration(t.c[Len(t.c)]) /\ (ForInit(t.op) = "e" => FirstTok(t.c[1]) # "let")
       [] k \in {"forin","forof","forawait"} ->
              /\ ~IsDeclaration(t.c[3])
              /\ (t.op = "e" => IsSimpleTarget(t.c[1]) \/ IsAsgPattern(t.c[1]))
              /\ (t.op # "e" => t.c[1].k # "bdef")
+             \* 14.7.5: for ( [lookahead \notin {let, async of}] LeftHandSideExpression of ...; for ( [lookahead # let [] LeftHandSideExpression in ...:
+             \* a left side starting with `let` is not generated, nor `async` alone before `of`
+             /\ (t.op = "e" => FirstTok(t.c[1]) # "let" /\ ~(k # "forin" /\ t.c[1].k = "kid" /\ t.c[1].op = "async"))
       [] k = "sw" -> Cardinality({i \in DOMAIN t.c : t.c[i].k = "def"}) <= 1
       \* an EmptyStatement directly after another statement of a list is not generated (js.Parse does not keep it in the tree)
       [] k \in {"blk","def"} -> \A i \in DOMAIN t.c : i > 1 => t.c[i].k # "empty"
       [] k = "case" -> \A i \in DOMAIN t.c : i > 2 => t.c[i].k # "empty"
       [] k = "try" -> (t.op \in {"cp","cpf"} => t.c[2].k # "bdef")
       [] OTHER -> TRUE
+Ok(t) == OkNode(t) /\ LtOk(t)
 
 (* ------------------------------- automatic semicolon insertion ------------------------------- *)
 Markers == {"<nl>", "<omit>", "<dw>"}
@@ -685,8 +790,9 @@ Markers == {"<nl>", "<omit>", "<dw>"}
 UnsafeNext == {"(", "(:exp", "(:mix", "[", "/", "+", "-", "*", "%", "**", ".", "?.", ",", "<", ">", "<=", ">=", "==", "!=", "===", "!==", "<<", ">>", ">>>",
                "&", "|", "^", "&&", "||", "??", "?", ":", "=>", "in", "instanceof", "of", ";", "`h${", "}m${", "}t`"} \cup AsgOps \cup RegexToks \cup TplToks
 RECURSIVE NextReal(_, _)
-NextReal(toks, i) == IF i > Len(toks) THEN "<eof>" ELSE IF toks[i] \in Markers THEN NextReal(toks, i + 1) ELSE toks[i]
-ASIok(toks) ==
+NextReal(toks, i) == IF i > Len(toks) THEN "<eof>" ELSE IF toks[i] \in Markers \cup {"<lt>", "<lts>"} THEN NextReal(toks, i + 1) ELSE toks[i]
+\* kwYield: the token yield is the operator (FALSE: it is an identifier, a program has only one of the two)
+ASIok(toks, kwYield) ==
     \A i \in 1..Len(toks) :
         toks[i] \in Markers =>
             LET nt == NextReal(toks, i + 1)
@@ -694,8 +800,13 @@ ASIok(toks) ==
             CASE toks[i] = "<omit>" -> nt \in {"}", "<eof>"}
               [] toks[i] = "<dw>" -> nt \notin UnsafeNext
               [] toks[i] = "<nl>" -> \/ nt \in {"}", "<eof>", "++", "--"}
-                                    \/ pv \in {"return", "break", "continue", "yield"}
+                                    \/ pv \in {"return", "break", "continue"} \/ (pv = "yield" /\ kwYield)
                                     \/ nt \notin UnsafeNext
+\* a line break inside a statement ("<lt>", spelled by the nodes with z = "lt") leaves the derivation alone unless the next token is one the grammar
+\* restricts: LeftHandSideExpression [no LineTerminator here] ++ / -- (13.4), ArrowParameters [no LineTerminator here] => (15.3)
+\* (the line breaks that ARE at such a place belong to LtBad nodes and are followed by function / a parameter / a method name / =>: "lta" is exempt)
+\* (a line break before the terminating ';' is the business of the terminator spelling "nlsemi" alone)
+LtFreeOk(toks) == \A i \in 1..Len(toks) : toks[i] = "<lt>" => NextReal(toks, i + 1) \notin {"++", "--", ";"}
 \* the spelled tokens: markers resolved
 Resolve(toks) == SelectSeq(toks, LAMBDA x : x \notin {"<omit>", "<dw>"})     \* "<nl>" stays: the harness writes a line break
 
@@ -715,6 +826,40 @@ Starts(lens, i, acc) == IF i > Len(lens) THEN <<>> ELSE <<acc>> \o Starts(lens, 
 Ins(lens, off) == LET st == Starts(lens, 1, off) IN
                   UNION {{[at |-> st[i], tok |-> b] : b \in {"(", "[", "{"}} \cup {[at |-> st[i] + lens[i], tok |-> b] : b \in {")", "]", "}"}} : i \in DOMAIN lens}
 
+(* An un-parenthesised comma expression where the grammar takes an AssignmentExpression.  For operand i of p, what follows it in p: *)
+(*   "list"    a comma there separates list elements (arguments 13.3, elements 13.2.4, properties 13.2.5, declarators 14.3,      *)
+(*             parameters 15.1, pattern elements 14.3.3, the operands of a comma expression 13.16): the text is derivable        *)
+(*   "closed"  a token of p that no Expression can precede unless p takes one there: `:` of a conditional (13.14), `]` of a      *)
+(*             computed name (13.2.5), `)` of for-of (14.7.5), `{` after a class heritage (15.7), the end of a field (15.7)      *)
+(*   "open"    nothing of p: the comma is read by whatever contains p                                                           *)
+Edge(p, i) ==
+    LET k == p.k IN
+    CASE k \in {"call","ocall","newa"} /\ i > 1 -> "list"
+      [] k \in {"arr","obj","ps","barr","bobj","var","varl","comma","badcomma"} -> "list"
+      [] k = "cond" /\ i = 2 -> "closed"
+      [] k \in {"pcomp","bpcomp","cmeth","cfield"} /\ i = 1 -> "closed"
+      [] k \in {"forof","forawait"} /\ i = 2 -> "closed"
+      [] k \in {"cls","clsn","cdecl"} /\ p.op = "x" /\ i = 1 -> "closed"
+      [] k \in {"field","sfield","pfield","sfieldl","kfield"} -> "closed"
+      [] k = "cfield" /\ i = 2 -> "closed"
+      [] OTHER -> "open"
+\* abs: a comma at the right edge of t would be read by something around t (the text is derivable in another way); that is also so when Norm
+\* puts parentheses around the operand (it does not fit the level demanded, or it is an arrow body starting with `{`)
+RECURSIVE BadPlaced(_, _, _)
+BadPlaced(t, abs, noIn) ==
+    \A i \in DOMAIN t.c :
+        LET req == ChildReq(t, i)
+            ni == ChildNoIn(t, i, noIn)
+            e == Edge(t, i)
+            heritage == t.k \in {"cls","clsn","cdecl"} /\ t.op = "x" /\ i = 1
+            a == IF req = LComma \/ ~Fits(t.c[i], req, ni) \/ (t.k = "arrow" /\ i = 2 /\ FirstTok(t.c[i]) = "{") THEN TRUE
+                 ELSE IF e = "list" THEN TRUE ELSE IF e = "closed" THEN FALSE ELSE abs
+        IN /\ (t.c[i].k = "badcomma" => /\ ~a
+                                        /\ (req = LAsg \/ heritage)
+                                        \* 15.7 ClassHeritage : extends LeftHandSideExpression - the operands are such expressions (the comma is the one thing wrong)
+                                        /\ (heritage => Level(t.c[i].c[1]) >= LNew /\ Level(t.c[i].c[2]) >= LNew))
+           /\ BadPlaced(t.c[i], a, ni)
+
 \* tables computed once (constant level)
 SigTab == [c \in Cons |-> SigArgs(c)]
 CostTab == [c \in Cons |-> Cost(c)]
@@ -727,8 +872,8 @@ Init == /\ word = <<>> /\ ne = 0 /\ ns = 0 /\ nx = 0 /\ np = 0 /\ nv = 0 /\ nlea
         /\ holes \in {Rep("S", n) : n \in 1..MaxTop}
 
 \* which constructor may fill a hole of which category
-TargetKinds == {"id","dot","idx","pdot","grp"}
-DeclCon(con) == con.k \in {"fdecl","cdecl","dup"} \/ (con.k = "var" /\ con.op \in {"let","const"})
+TargetKinds == {"id","kid","dot","idx","pdot","grp"}
+DeclCon(con) == con.k \in {"fdecl","cdecl","dup"} \/ (con.k \in {"var","varl"} /\ con.op \in {"let","const"})
 Fills(con, h) ==
     LET cat == Cat(con) IN
     CASE h = "A" -> cat \in {"E", "A"}
@@ -772,13 +917,15 @@ Expand(con) ==
            x2 == IF cost = "x" THEN nx + 1 ELSE nx
            p2 == IF cost = "p" THEN np + 1 ELSE np
            v2 == IF cost = "v" THEN nv + 1 ELSE nv
-       IN /\ e2 <= MaxE /\ p2 <= MaxP /\ v2 <= MaxL
+       IN /\ e2 <= MaxE /\ p2 <= MaxP /\ (v2 % 100) <= MaxL
           /\ s2 + CountIn(hs, {"S","SB","V"}) <= MaxS
           /\ x2 + CountIn(hs, {"DC","V"}) <= MaxX
           /\ (FreshCon(con) => nleaf < Len(Pool))
-          /\ \E z \in (IF Head(holes) = "V" THEN {"semi"} ELSE IF HasTerm(con.k) THEN Terms ELSE {""}) :
-                word' = Append(word, [k |-> con.k, op |-> con.op, n |-> con.n, z |-> z])
-          /\ holes' = hs /\ ne' = e2 /\ ns' = s2 /\ nx' = x2 /\ np' = p2 /\ nv' = v2
+          \* at most one node of a program takes a line break inside a statement (z = "lt" / "lta"): counted in the hundreds of nv
+          /\ \E z \in (IF Head(holes) = "V" THEN {"semi"} ELSE IF HasTerm(con.k) THEN Terms \ {"lt"} ELSE IF v2 >= 100 THEN {""} ELSE LtChoices(con)) :
+                /\ word' = Append(word, [k |-> con.k, op |-> con.op, n |-> con.n, z |-> z])
+                /\ nv' = IF z \in {"lt", "lta"} THEN v2 + 100 ELSE v2
+          /\ holes' = hs /\ ne' = e2 /\ ns' = s2 /\ nx' = x2 /\ np' = p2
           /\ nleaf' = IF FreshCon(con) THEN nleaf + 1 ELSE nleaf
 
 \* the trees of a complete word (prefix notation); names are given in source order
@@ -810,24 +957,31 @@ PairsOf(t) == Flat([i \in DOMAIN t.c |-> <<t.k \o ":" \o t.op \o ">" \o t.c[i].k
 CaseFile == IOEnv.VERIF_CASES
 \* the function the whole program is put in when it needs [Yield] / [Await] / [Return] / new.target
 WrapKind(nd) == IF "gen" \in nd /\ "async" \in nd THEN "async*" ELSE IF "gen" \in nd THEN "*" ELSE IF "async" \in nd THEN "async"
-                ELSE IF nd \cap {"ret","nt"} # {} THEN "" ELSE "none"
+                ELSE IF nd \cap {"ret","nt","noawait"} # {} THEN "" ELSE "none"    \* js.Parse reads a top-level await as the operator (module goal)
+RECURSIVE HasLtBad(_)
+HasLtBad(t) == LtBad(t) \/ \E i \in DOMAIN t.c : HasLtBad(t.c[i])
 Emit(st, nn) ==
-    ((\A i \in DOMAIN st : AllOk(st[i])) /\ (\A i \in DOMAIN st : i > 1 => st[i].k # "empty")) =>
+    ((\A i \in DOMAIN st : AllOk(st[i]) /\ BadPlaced(st[i], TRUE, FALSE)) /\ (\A i \in DOMAIN st : i > 1 => st[i].k # "empty")
+     /\ ((\E i \in DOMAIN st : Has(st[i], {"thrownl"})) => Len(st) = 1)) =>      \* (throw + line break: alone in its program)
         LET nd == UNION {Needs(st[i]) : i \in DOMAIN st}
             wk == WrapKind(nd)
             norm == [i \in DOMAIN st |-> Norm(st[i], -1, FALSE, "auto")]
             body == Flat([i \in DOMAIN st |-> Spell(norm[i])])
             raw == IF wk = "none" THEN body ELSE FnToks(wk) \o <<"wf", "(", ")", "{">> \o body \o <<"}">>
-            bad == \E i \in DOMAIN st : Has(st[i], {"dup", "badasg"})
+            nolt == \E i \in DOMAIN st : HasLtBad(st[i])
+            bad == nolt \/ \E i \in DOMAIN st : Has(st[i], {"dup", "badasg", "badcomma", "thrownl"})
             Cn(w) == LET cs == Sep([i \in DOMAIN st |-> Canon(norm[i], w)], <<" ">>) IN
                      IF wk = "none" THEN cs ELSE <<"Decl(", FnHead(wk), " wf Params() Stmt({ ">> \o cs \o <<" }))">>
             toks == Resolve(raw)
             lens == [i \in DOMAIN st |-> Len(Resolve(Spell(norm[i])))]
             off == IF wk = "none" THEN 0 ELSE Len(FnToks(wk)) + 4
-        IN (nd \subseteq {"gen","async","ret","nt","sloppy"} /\ ASIok(raw)) =>
+        IN (nd \subseteq {"gen","async","ret","nt","sloppy","nogen","noawait"} /\ ~{"gen","nogen"} \subseteq nd /\ ~{"async","noawait"} \subseteq nd /\ ASIok(raw, "nogen" \notin nd) /\ LtFreeOk(raw)) =>
              CSVWrite("%1$s", <<ToJson([toks |-> toks,
                                         kind |-> (IF bad THEN "reject" ELSE "accept"),
-                                        why |-> (IF bad THEN (IF \E i \in DOMAIN st : Has(st[i], {"dup"}) THEN "lexical-redeclaration" ELSE "assign-to-binary") ELSE ""),
+                                        why |-> (IF bad THEN (IF \E i \in DOMAIN st : Has(st[i], {"dup"}) THEN "lexical-redeclaration"
+                                                              ELSE IF \E i \in DOMAIN st : Has(st[i], {"badcomma"}) THEN "comma-where-assignment-expression"
+                                                              ELSE IF nolt \/ \E i \in DOMAIN st : Has(st[i], {"thrownl"}) THEN "line-break-in-restricted-production"
+                                                              ELSE "assign-to-binary") ELSE ""),
                                         canon |-> (IF bad THEN <<>> ELSE Cn(FALSE)),
                                         canonw |-> (IF bad \/ ~\E i \in DOMAIN st : Has(st[i], {"while"}) THEN <<>> ELSE Cn(TRUE)),
                                         del |-> (IF bad THEN {} ELSE Dels(toks)),
